@@ -6,3 +6,5 @@ import RB.Model.DataFile
 import RB.Model.Session
 import RB.Util.SessionJson
 import RB.Proofs.C06
+import RB.Model.Identity
+import RB.Proofs.C07
